@@ -5,6 +5,7 @@ from ..interp_prop import InterpProp
 
 class C01(InterpProp):
     id = 'C01'
+    decoy = 0.12
     # observables compared with the model (see InterpProp.normalize)
     cmp_eff = ('guard',)
     cmp_step = ('event', 'transition')
@@ -47,6 +48,18 @@ class C01(InterpProp):
         out = r['outcome']
         if out == 'error':
             res.features.add('err:' + r['err']['class'])
+            if r['err']['class'] in ('NonDeterminismError', 'ConflictingTransitionsError'):
+                # the selection these are raised about is the documented one: when that holds no pair of
+                # transitions that cannot fire together, nothing is to be raised
+                gt = oracles.guard_table(r.get('eff', []))
+                pending = gh.next(info['clock'])
+                pend_name = pending['ev']['ev'] if pending else None
+                exps = [sorted(oracles.fires_spec(sc, trans, set(info['cfg0']), pend_name,
+                                                  lambda i, x, d=d: gt.get((i, x), d) is True if (i, x) in gt else d))
+                        for d in (False, True)]
+                if exps[0] == exps[1] and oracles.classify(sc, [trans[i] for i in exps[0]]) == 'ok':
+                    res.violations.append('step %d: %s raised; the documented selection is %s, which can fire together'
+                                          % (info['k'], r['err']['class'], exps[0]))
             return
         eff = r['eff']
         gt = oracles.guard_table(eff)
